@@ -39,6 +39,8 @@ class Rng(minirust.Obj):
 
     def _bool(self, a):
         p = a[0]
+        if not (isinstance(p, (int, float)) and 0 <= p <= 1):
+            raise minirust.Panics('random_bool(%r): the probability is outside [0, 1]' % (p,))
         if p == 0:
             return False
         if p == 1:
@@ -49,9 +51,9 @@ class Rng(minirust.Obj):
         return self.floats[self._choose(len(self.floats))]
 
 
-def explore(run, rng, limit=60000):
-    """run(): evaluates the generator once with `rng`; yields (result, trace) for every complete choice sequence"""
-    prefix = []
+def explore(run, rng, limit=60000, pin=()):
+    """run(): evaluates the generator once with `rng`; yields (result, trace) for every complete choice sequence (that starts with the choices `pin`)"""
+    prefix = list(pin)
     n = 0
     while True:
         rng.prefix, rng.trace = list(prefix), []
@@ -64,6 +66,6 @@ def explore(run, rng, limit=60000):
         tr = list(rng.trace)
         while tr and tr[-1][0] + 1 >= tr[-1][1]:
             tr.pop()
-        if not tr:
+        if len(tr) <= len(pin):
             return
         prefix = [c for c, _n in tr[:-1]] + [tr[-1][0] + 1]
